@@ -330,6 +330,18 @@ def read_dir_files(d, start):
     return files
 
 
+def generated_sets(tag, n):
+    """File sets from the engine-G generator (multi-file, imports incl. cycles, WSDLs with multi-part messages)."""
+    from . import gen, render
+    out = []
+    for i in range(n):
+        wsdl = i % 2 == 0
+        cfg = gen.cfg_with(files=(2, 4), wsdl=wsdl, ops=(2, 5), headers=(0, 2), p_parts_attr=0.4)
+        ss = gen.generate(rng(tag, "generated", i), cfg)
+        out.append((f"generated-{'wsdl' if wsdl else 'xsd'}-{i}", render.render_set(ss), ss.start))
+    return out
+
+
 def synth_wsdl(r, n_ops, headers=True, parts_attr=None, styles=None):
     """A small document/literal WSDL with n_ops operations; message parts and header bindings vary.
     Only used as a *workload* for C12/C13/C15 (no correctness oracle is attached to its content)."""
@@ -445,7 +457,7 @@ def c12(tier):
     for k in range(n_synth):
         text, meta = synth_wsdl(rng("C12", "synth", k), 2 + k % 7, headers=True)
         inputs.append((f"synth-wsdl-{k}-ops{len(meta['ops'])}", {"svc.wsdl": text}, "svc.wsdl"))
-    # multi-file synthetic: C11-style graphs rendered through zdrive are covered by C11; here: repo multi-file sets
+    inputs += generated_sets("C12", 10 if tier == "quick" else 60)
     n_proc = 8 if tier == "quick" else 32
     scratchdir = common.scratch("c12")
     evaluated = 0
@@ -529,7 +541,7 @@ def c12(tier):
             samples.append({"input": label, "executions": execs, "distinct_outputs_seen": nshas})
     import shutil
     shutil.rmtree(scratchdir, ignore_errors=True)
-    multi_op = sum(1 for lbl in distinct_outputs if "synth" in lbl or lbl.endswith((".wsdl", "_wsdl.xml")))
+    multi_op = sum(1 for lbl in distinct_outputs if "synth" in lbl or "generated" in lbl or lbl.endswith((".wsdl", "_wsdl.xml")))
     cov = {
         "evaluations": executions,
         "distinct_nontrivial": multi_op,
@@ -560,6 +572,7 @@ def c15(tier):
     for k in range(6 if tier == "quick" else 40):
         text, meta = synth_wsdl(rng("C15", "synth", k), 1 + k % 5, headers=True)
         inputs.append((f"synth-wsdl-{k}", {"svc.wsdl": text}, "svc.wsdl"))
+    inputs += generated_sets("C15", 6 if tier == "quick" else 40)
     # tiny documents that isolate single emitters
     xs = 'xmlns:xs="http://www.w3.org/2001/XMLSchema"'
     tiny = {
@@ -665,7 +678,7 @@ def c13(tier):
     for k in range(12 if tier == "quick" else 60):
         text, _ = synth_wsdl(rng("C13", "synth", k), 1 + k % 6)
         corpus.append((f"synth-wsdl-{k}", {"svc.wsdl": text}, "svc.wsdl"))
-    # C11-style multi-file sets (cyclic imports included) as mutation seeds, rendered by zdrive's own renderer
+    corpus += generated_sets("C13", 10 if tier == "quick" else 60)
     jobs = []
     meta = []
 
